@@ -90,6 +90,7 @@ type refResult struct {
 func (r refResult) modifies() bool { return r.DataChanged || r.LogChanged }
 
 type runner struct {
+	lastPre  [][]string // prelude of the last issued cell (SCRIPT LOAD for the SHA wrappers)
 	ctx      *core.Ctx
 	bin      string
 	table    []*cmdSpec
@@ -136,6 +137,7 @@ func (r *runner) issue(e *env, cl cell, password string) (full []string, out out
 		return nil, out, err
 	}
 	pre, full := wrap(cl.w, args)
+	r.lastPre = pre
 	for _, p := range pre {
 		if _, err := e.admin.Do(p...); err != nil {
 			return full, out, err
@@ -292,17 +294,34 @@ func waitShrink(s *srv.Server, before int) bool {
 }
 
 // cells enumerates the matrix of a pass.
-func (r *runner) cells(cb combo, names map[string]bool) []cell {
+func (r *runner) cells(cb combo, names map[string]bool, only func(*cmdSpec) bool) []cell {
 	var out []cell
 	for _, w := range r.wraps {
 		if names != nil && !names[w.name] {
 			continue
 		}
 		for _, c := range r.table {
+			if only != nil && !only(c) {
+				continue
+			}
 			out = append(out, cell{c, w, cb})
 		}
 	}
 	return out
+}
+
+// devRef is the offset of the reference tables measured on a --dev leader.
+const devRef = 100
+
+// devRows selects the rows that exist only on a server started with --dev.
+// SHUTDOWN ends the process by design: it is only driven where it must be refused.
+func devRows(mode string) func(*cmdSpec) bool {
+	return func(c *cmdSpec) bool {
+		if !c.devOnly {
+			return false
+		}
+		return c.name != "SHUTDOWN" || mode == mNoauth
+	}
 }
 
 func (r *runner) markDriven(mode string, c *cmdSpec) {
@@ -321,22 +340,30 @@ func (r *runner) sample(mode string, v any) {
 
 // ---- (a) reference run on a plain leader
 
-func (r *runner) reference(state int, cbs []combo, wn map[string]map[string]bool) bool {
+func (r *runner) reference(state int, cbs []combo, wn map[string]map[string]bool, dev bool) bool {
 	ctx := r.ctx
-	e, err := setup(r.bin, setupOpts{mode: mLeader, state: state})
+	so := setupOpts{mode: mLeader, state: state}
+	var only func(*cmdSpec) bool
+	refIdx := state
+	if dev {
+		so.args = []string{"--dev"}
+		only = devRows(mLeader)
+		refIdx = state + devRef
+	}
+	e, err := setup(r.bin, so)
 	if err != nil {
 		ctx.Inconclusive("leader setup: " + err.Error())
 		return false
 	}
 	defer func() { r.closeShared(); e.close() }()
 	res := map[string]refResult{}
-	r.ref[state] = res
+	r.ref[refIdx] = res
 	unknown := 0
 	for _, cb := range cbs {
 		if cb.transport == "resp" && cb.output == "json" {
 			continue // same commands as resp/resp; the reference is per (command, wrapper, transport)
 		}
-		for _, cl := range r.cells(cb, wn[cb.String()]) {
+		for _, cl := range r.cells(cb, wn[cb.String()], only) {
 			if _, ok := res[cl.refKey()]; ok {
 				continue
 			}
@@ -377,14 +404,14 @@ func (r *runner) reference(state int, cbs []combo, wn map[string]map[string]bool
 			rr := refResult{Out: out, DataChanged: d != "", LogChanged: l != "", What: strings.TrimSpace(d + " " + l)}
 			res[cl.refKey()] = rr
 			ctx.Eval(1)
-			ctx.Distinct(mLeader + "|" + cl.cmd.name + "|" + cl.w.name + "|" + cl.cb.transport)
+			ctx.Distinct(mLeader + devTag(dev) + "|" + cl.cmd.name + "|" + cl.w.name + "|" + cl.cb.transport)
 			ctx.Count("leader_cells", 1)
 			r.markDriven(mLeader, cl.cmd)
 			if rr.modifies() {
 				ctx.Count("leader_cells_modifying", 1)
 			}
 			if cl.w.name == "plain" && cl.cb.transport == "resp" {
-				if out.Class == "err" && strings.Contains(out.Text, "unknown command") && !cl.cmd.unknownOK {
+				if out.Class == "err" && strings.Contains(out.Text, "unknown command") && (!cl.cmd.unknownOK || (dev && cl.cmd.devOnly)) {
 					unknown++
 					ctx.Logf("table row %s is answered 'unknown command'", cl.cmd.name)
 				}
@@ -397,6 +424,16 @@ func (r *runner) reference(state int, cbs []combo, wn map[string]map[string]bool
 	if unknown > 0 {
 		ctx.Count("table_out_of_date", int64(unknown))
 		ctx.Inconclusive(fmt.Sprintf("%d rows of the harness command table are unknown to the server", unknown))
+	}
+	if dev {
+		var mod []string
+		for _, c := range r.table {
+			if rr := res[c.name+"|plain|resp"]; rr.modifies() {
+				mod = append(mod, c.name)
+			}
+		}
+		ctx.Set("measured_data_modifying_dev_only_plain", mod)
+		return true
 	}
 	// the measured must-refuse set (plain, RESP)
 	var mod, logonly []string
@@ -440,6 +477,9 @@ func violationKey(mode string, cl cell, suffix string) string {
 	if cl.cmd.name == "JDEL" && (mode == mCatchup || mode == mFollower || mode == mReadonly) {
 		return "gate:jdel-not-write-class"
 	}
+	if cl.cmd.name == "MASSINSERT" && (mode == mCatchup || mode == mFollower || mode == mReadonly) {
+		return "gate:massinsert-dev-not-gated"
+	}
 	if cl.w.rebind != "" && (mode == mCatchup || mode == mFollower || mode == mReadonly) {
 		return "gate:evalro-evalcmd-rebind"
 	}
@@ -456,16 +496,29 @@ func violationKey(mode string, cl cell, suffix string) string {
 // ---- (b) (c) (d) (e): one pass of the matrix over a gated environment
 
 type passOpts struct {
-	so    setupOpts
-	cb    combo
-	wn    map[string]bool
-	order []int // permutation seed material
+	so  setupOpts
+	cb  combo
+	wn  map[string]bool
+	dev bool // servers run with --dev, only the dev-only rows are driven
+}
+
+func devTag(dev bool) string {
+	if dev {
+		return "+dev"
+	}
+	return ""
 }
 
 func (r *runner) pass(po passOpts) {
 	ctx := r.ctx
 	mode := po.so.mode
 	ref := r.ref[po.so.state]
+	var only func(*cmdSpec) bool
+	if po.dev {
+		ref = r.ref[po.so.state+devRef]
+		po.so.args = []string{"--dev"}
+		only = devRows(mode)
+	}
 	e, err := setup(r.bin, po.so)
 	if err != nil {
 		ctx.Inconclusive(mode + " setup: " + err.Error())
@@ -490,7 +543,7 @@ func (r *runner) pass(po passOpts) {
 		}
 		return true
 	}
-	cells := r.cells(po.cb, po.wn)
+	cells := r.cells(po.cb, po.wn, only)
 	// deterministic, seed dependent order
 	rng := ctx.SubRng(int64(len(mode))*1000 + int64(po.so.state)*100 + int64(len(po.cb.String())))
 	rng.Shuffle(len(cells), func(i, j int) { cells[i], cells[j] = cells[j], cells[i] })
@@ -501,7 +554,7 @@ func (r *runner) pass(po passOpts) {
 			return
 		}
 		rr, ok := ref[cl.refKey()]
-		if !ok {
+		if !ok && !(cl.cmd.name == "SHUTDOWN" && mode == mNoauth) {
 			ctx.Count("cells_not_encodable_for_http", 1)
 			continue
 		}
@@ -516,6 +569,17 @@ func (r *runner) pass(po passOpts) {
 		}
 		nshr := shrinkEnded(e.s)
 		full, out, err := r.issue(e, cl, "")
+		if cl.cmd.name == "SHUTDOWN" && po.dev && mode == mNoauth {
+			time.Sleep(30 * time.Millisecond)
+			if e.s.WaitExit(0) || !e.s.Alive() {
+				ctx.Violation(violationKey(mode, cl, "terminated"), fmt.Sprintf("requirepass set, connection not authenticated: %q ended the server process", full), map[string]any{"command": full, "reply": out})
+				before = nil
+				if !rebuild("server shut down") {
+					return
+				}
+				continue
+			}
+		}
 		if err != nil || !e.s.Alive() {
 			_, site := e.s.Crashed()
 			ctx.Inconclusive(fmt.Sprintf("%s: %q: %v alive=%v %s", mode, full, err, e.s.Alive(), site))
@@ -549,11 +613,13 @@ func (r *runner) pass(po passOpts) {
 		}
 		d, l := diffSnap(before, after)
 		ctx.Eval(1)
-		ctx.Distinct(mode + "|" + cl.cmd.name + "|" + cl.w.name + "|" + cl.cb.String())
-		ctx.Count("cells_"+mode, 1)
-		r.markDriven(mode, cl.cmd)
+		ctx.Distinct(mode + devTag(po.dev) + "|" + cl.cmd.name + "|" + cl.w.name + "|" + cl.cb.String())
+		ctx.Count("cells_"+mode+devTag(po.dev), 1)
+		if !po.dev {
+			r.markDriven(mode, cl.cmd)
+		}
 		replay := map[string]any{"mode": mode, "dataset_state": po.so.state, "transport": cl.cb.transport, "output": cl.cb.output,
-			"gate_via_config_file": po.so.preseed, "command": full, "reply": out, "reply_on_leader": rr.Out, "effect_on_leader": rr.What,
+			"gate_via_config_file": po.so.preseed, "server_args": po.so.args, "prelude_on_admin_connection": r.lastPre, "command": full, "reply": out, "reply_on_leader": rr.Out, "effect_on_leader": rr.What,
 			"dataset_change": d, "log_change": l, "seed": seedCommands(po.so.state)[:min(12, len(seedCommands(po.so.state)))]}
 		bad := false
 		must := mustRefuse(cl, rr)
@@ -714,9 +780,10 @@ func Run(ctx *core.Ctx) {
 			break
 		}
 		ctx.Logf("state %d: reference run on a plain leader", st)
-		if !r.reference(st, cbs, wn) {
+		if !r.reference(st, cbs, wn, false) {
 			break
 		}
+		devOK := st == 0 && r.reference(st, cbs[:1], wn, true)
 		for _, mode := range []string{mCatchup, mFollower, mReadonly, mNoauth} {
 			for _, cb := range cbs {
 				if r.abort || ctx.Violations() >= 25 {
@@ -727,10 +794,22 @@ func Run(ctx *core.Ctx) {
 				// variation of how the gate is configured (thorough: both ways over the states)
 				so.preseed = st == 1
 				so.hold = st == 2
-				if !ctx.Thorough() && cb.transport == "http" {
-					so.preseed = true
+				if !ctx.Thorough() {
+					// quick: the other way of configuring each gate rides on the secondary passes
+					so.preseed = cb.transport == "http"
+					so.hold = cb.output == "json" && cb.transport == "resp"
 				}
 				r.pass(passOpts{so: so, cb: cb, wn: wn[cb.String()]})
+			}
+		}
+		if devOK && !r.abort {
+			// the dev-only rows on servers started with --dev
+			ctx.Logf("dev-only rows on --dev servers")
+			for _, mode := range []string{mCatchup, mFollower, mReadonly, mNoauth} {
+				if r.abort || ctx.Violations() >= 25 {
+					break
+				}
+				r.pass(passOpts{so: setupOpts{mode: mode, state: st, password: password}, cb: cbs[0], wn: wn["resp/json"], dev: true})
 			}
 		}
 		if st == 0 && !r.abort {
